@@ -35,6 +35,12 @@ class Journal(object):
     def getRaftCommitIndex(self):
         raise NotImplementedError
 
+    def setTermAndVote(self, currentTerm, votedForNodeId):
+        raise NotImplementedError
+
+    def getTermAndVote(self):
+        raise NotImplementedError
+
     def onOneSecondTimer(self):
         pass
 
@@ -72,6 +78,12 @@ class MemoryJournal(Journal):
 
     def getRaftCommitIndex(self):
         return 1
+
+    def setTermAndVote(self, currentTerm, votedForNodeId):
+        pass
+
+    def getTermAndVote(self):
+        return 0, None
 
 
 
@@ -266,6 +278,17 @@ class FileJournal(Journal):
 
     def getRaftCommitIndex(self):
         return self.__meta.get('raftCommitIndex', 1)
+
+    def setTermAndVote(self, currentTerm, votedForNodeId):
+        # Stored at once: a restarted node must not vote twice in a term
+        # or follow a leader of a term older than the one it has seen.
+        self.__meta['currentTerm'] = currentTerm
+        self.__meta['votedForNodeId'] = votedForNodeId
+        self.__metaStorer.storeMeta(self.__meta)
+        self.__metaSaved = True
+
+    def getTermAndVote(self):
+        return self.__meta.get('currentTerm', 0), self.__meta.get('votedForNodeId', None)
 
     def onOneSecondTimer(self):
         if not self.__metaSaved:
